@@ -10,7 +10,7 @@ import (
 
 func init() {
 	register(&Rule{Name: "args.order", Floor: 250,
-		Doc: "at every call of a zrnt function, no two arguments that are plain identifiers/field selectors carry the names of two same-typed parameters of the callee at each other's positions (exact-name permutation; a swapped pair of same-typed arguments type-checks and silently exchanges their meaning)",
+		Doc: "at every call of a zrnt function, no two arguments carry the names of two same-typed parameters of the callee at each other's positions: by exact leaf name, or by the distinguishing words of the parameter names found in the other argument's path (finalized/justified in fc.finalized.Epoch, fc.justified.Epoch); a swapped pair of same-typed arguments type-checks and silently exchanges their meaning",
 		Run: ruleArgsOrder})
 }
 
